@@ -18,6 +18,10 @@
 #include <unistd.h>
 #include <sys/wait.h>
 #include <signal.h>
+#include <setjmp.h>
+#if defined(__SANITIZE_ADDRESS__)
+#include <sanitizer/lsan_interface.h>
+#endif
 
 namespace vl
 {
@@ -228,6 +232,38 @@ inline ChildOut runInChild(const std::function<std::string()>& fn)
    return r;
 }
 
+// In-process variant for pure functions (ratFromString): a SIGFPE raised inside fn (GMP's reaction to inf / nan) is turned
+// into the return value "C...".  The temporaries that are skipped by the jump are not reported as leaks.
+inline sigjmp_buf& fpeJmp()
+{
+   static sigjmp_buf b;
+   return b;
+}
+inline void fpeHandler(int)
+{
+   siglongjmp(fpeJmp(), 1);
+}
+inline std::string runCatchingFPE(const std::function<std::string()>& fn)
+{
+   struct sigaction sa, old;
+   memset(&sa, 0, sizeof sa);
+   sa.sa_handler = fpeHandler;
+   sigemptyset(&sa.sa_mask);
+   sigaction(SIGFPE, &sa, &old);
+#if defined(__SANITIZE_ADDRESS__)
+   __lsan_disable();
+#endif
+   bool crashed = false;
+   std::string out;
+   if(sigsetjmp(fpeJmp(), 1) == 0) out = fn();
+   else crashed = true;
+#if defined(__SANITIZE_ADDRESS__)
+   __lsan_enable();
+#endif
+   sigaction(SIGFPE, &old, nullptr);
+   return crashed ? std::string("Cthe process received SIGFPE (GMP invalid operation)") : out;
+}
+
 // ================================================================================================ named LPs
 struct NamedLP
 {
@@ -249,14 +285,14 @@ inline void defaultNames(NamedLP& L)
 // keyword / exponent / "inf" / "free" (documented: "check for forbidden variable names with initial 'e' or 'E'"), further
 // characters letters, digits and a few of the special characters the LP format allows; no '_' in row names (the LP writer
 // appends _1/_2 to split ranged rows, user names must not collide with that).
-inline std::string randomName(Rng& g, bool row, std::set<std::string>& used)
+inline std::string randomName(Rng& g, bool row, std::set<std::string>& used, int maxLen = 8)
 {
    static const std::string first = "acdhjknopqruvwxyzACDHJKNOPQRUVWXYZ";
    static const std::string restC = "abcdefghijklmnopqrstuvwxyzABCDEFGHIJKLMNOPQRSTUVWXYZ0123456789_#@!~|";
    static const std::string restR = "abcdefghijklmnopqrstuvwxyzABCDEFGHIJKLMNOPQRSTUVWXYZ0123456789#@!~|";
    for(;;)
    {
-      int len = g.chance(0.3) ? 8 : g.range(1, 8);
+      int len = g.chance(0.3) ? maxLen : g.range(1, maxLen);
       std::string s(1, first[(size_t)g.range(0, (int)first.size() - 1)]);
       const std::string& rest = row ? restR : restC;
       while((int)s.size() < len) s += rest[(size_t)g.range(0, (int)rest.size() - 1)];
@@ -264,13 +300,13 @@ inline std::string randomName(Rng& g, bool row, std::set<std::string>& used)
       if(used.insert(s).second) return s;
    }
 }
-inline void userNames(NamedLP& L, Rng& g)
+inline void userNames(NamedLP& L, Rng& g, int maxColLen = 8)
 {
    std::set<std::string> ur, uc;
    L.rn.resize(L.M.m);
    L.cn.resize(L.M.n);
    for(int i = 0; i < L.M.m; i++) L.rn[i] = randomName(g, true, ur);
-   for(int j = 0; j < L.M.n; j++) L.cn[j] = randomName(g, false, uc);
+   for(int j = 0; j < L.M.n; j++) L.cn[j] = randomName(g, false, uc, maxColLen);
    if((int)L.isInt.size() != L.M.n) L.isInt.assign(L.M.n, 0);
 }
 
@@ -353,7 +389,8 @@ inline char rowType(const LPModel& M, int i)
 }
 
 // comparison of one number; tol == false: exact.  tol == true: "to the printed 15 decimals" (%.15f) resp. 15 significant
-// digits: |r - e| <= 1e-15 + 1e-14 |e|; infinite values must match as infinite.
+// digits: |r - e| <= 2e-15 + 1e-14 |e| (two units of the 15th decimal: a ranged row is written as lhs and rhs-lhs, each
+// rounded to 15 decimals, and added up by the reader); infinite values must match as infinite.
 inline bool sameNumber(const Q& e, const Q& r, bool tol, double* relOut = nullptr)
 {
    bool ei = !isFin(e), ri = !isFin(r);
@@ -361,16 +398,18 @@ inline bool sameNumber(const Q& e, const Q& r, bool tol, double* relOut = nullpt
    if(e == r) return true;
    if(!tol) return false;
    Q d = qabs(e - r);
-   Q thr = Q(1) / Q(pow10z(15)) + qabs(e) / Q(pow10z(14));
+   Q thr = Q(2) / Q(pow10z(15)) + qabs(e) / Q(pow10z(14));
    if(relOut) *relOut = std::max(*relOut, dq(d) / dq(thr));
    return d <= thr;
 }
 
 struct Diff
 {
-   std::string what;     // stable bucket (empty = equal)
+   std::string what;     // first stable bucket (empty = equal)
    std::string detail;
+   std::vector<std::pair<std::string, std::string>> all;   // every distinct bucket with its first detail
    bool exactEqual = true;   // every number identical (only interesting in tolerance mode)
+   bool numbersOk = true;    // no failure other than integer markers
 };
 
 // E (expected) vs R (read back); rows and columns are matched by name.
@@ -384,6 +423,9 @@ inline Diff compareNamed(const NamedLP& E, const NamedLP& R, bool tol, double* m
          d.what = w;
          d.detail = det;
       }
+      for(auto& p : d.all) if(p.first == w) return;
+      d.all.push_back(std::make_pair(w, det));
+      if(w.compare(0, 9, "intmarker") != 0) d.numbersOk = false;
    };
    auto qsx = [](const Q & q)
    {
@@ -441,7 +483,7 @@ inline Diff compareNamed(const NamedLP& E, const NamedLP& R, bool tol, double* m
       if(!num(X.lo[j], Y.lo[k])) fail("lower:" + ct, "lower bound of column " + E.cn[j] + ": expected " + qsx(X.lo[j]) + ", read " + qsx(Y.lo[k]));
       if(!num(X.up[j], Y.up[k])) fail("upper:" + ct, "upper bound of column " + E.cn[j] + ": expected " + qsx(X.up[j]) + ", read " + qsx(Y.up[k]));
       bool ei = !E.isInt.empty() && E.isInt[j], ri = !R.isInt.empty() && R.isInt[k];
-      if(ei != ri) fail("intmarker", "integer marker of column " + E.cn[j] + ": expected " + std::to_string(ei) + ", read " + std::to_string(ri));
+      if(ei != ri) fail("intmarker:" + ct, "integer marker of column " + E.cn[j] + ": expected " + std::to_string(ei) + ", read " + std::to_string(ri));
    }
    for(int i = 0; i < X.m; i++)
    {
